@@ -8,8 +8,10 @@ package c12
 import (
 	"bytes"
 	"encoding/json"
+	"errors"
 	"io"
 	"math"
+	"regexp"
 	"sort"
 	"strconv"
 	"strings"
@@ -563,36 +565,65 @@ type objExpect struct {
 
 const maxExact = float64(1 << 53)
 
-func localeOf(s string) (tag string, class int) {
+// locInfo: what the statement and the documentation of the decoders say about one language-tag string.
+// golang.org/x/text/language is the reference for what is a tag: Parse documents "If parsing failed it returns an error ... If parsing
+// succeeded but an unknown value was found, it returns ValueError. The Tag returned in this case is just stripped of the unknown value."
+type locInfo struct {
+	class int
+	tag   string // cDoc: the canonical tag ("" = the undefined locale)
+	// kind: tag | und | unknown (well-formed, some subtag is not in the registry: documented to decode to the undefined locale, without
+	// error, oidc.Locale.UnmarshalJSON; left out of a list, oidc.ParseLocales) | malformed | rewritten (canonicalisation changes it: grey)
+	kind string
+	// unknown only: the rest of the tag without the unknown subtag is a defined locale ("de-Abcd-CH" -> "de-CH"), which the document does not contain
+	partial string
+}
+
+func localeInfo(s string) locInfo {
 	r1, e1 := language.Parse(s)
 	r2, e2 := language.Raw.Parse(s)
+	var v1, v2 language.ValueError
 	switch {
 	case e1 == nil && e2 == nil && r1 == r2:
 		if r1.IsRoot() {
-			return "", cDoc
+			return locInfo{class: cDoc, kind: "und"}
 		}
-		return r1.String(), cDoc
-	case e1 != nil && e2 != nil:
-		return "", cOther
+		return locInfo{class: cDoc, tag: r1.String(), kind: "tag"}
+	case e1 != nil && e2 != nil && errors.As(e1, &v1) && errors.As(e2, &v2):
+		li := locInfo{class: cDoc, kind: "unknown"}
+		if !r2.IsRoot() {
+			li.partial = r2.String()
+		}
+		return li
+	case e1 != nil && e2 != nil && !errors.As(e1, &v1) && !errors.As(e2, &v2):
+		return locInfo{class: cOther, kind: "malformed"}
 	}
-	return "", cGrey
+	return locInfo{class: cGrey, kind: "rewritten"}
+}
+
+func localeOf(s string) (tag string, class int) {
+	li := localeInfo(s)
+	return li.tag, li.class
 }
 
 // localeList: the documented value of a list of language-tag entries: parse failures and undefined tags are left out.
-func localeList(entries []string) ([]any, bool) {
-	out := []any{}
+// partial: some entry is well-formed with an unknown subtag next to known ones.
+func localeList(entries []string) (out []any, partial bool, ok bool) {
+	out = []any{}
 	for _, e := range entries {
-		tag, class := localeOf(e)
-		switch class {
+		li := localeInfo(e)
+		switch li.class {
 		case cGrey:
-			return nil, false
+			return nil, false, false
 		case cDoc:
-			if tag != "" {
-				out = append(out, tag)
+			if li.tag != "" {
+				out = append(out, li.tag)
+			}
+			if li.partial != "" {
+				partial = true
 			}
 		}
 	}
-	return out, true
+	return out, partial, true
 }
 
 func classify(k fkind, raw []byte, strictFold bool) expect {
@@ -653,8 +684,16 @@ func classify(k fkind, raw []byte, strictFold bool) expect {
 			return expect{class: cDoc, want: f, form: form}
 		case string:
 			tt, err := time.Parse(time.RFC3339, x)
+			shaped, inRange := rfc3339Shape(x)
 			if err != nil {
+				if shaped && !inRange {
+					return expect{class: cOther, form: "string-rfc3339-out-of-range"}
+				}
 				return expect{class: cOther, form: "string-not-rfc3339"}
+			}
+			if shaped && !inRange {
+				// the standard library takes it although a component is outside its RFC 3339 range (offset 24:00, minute 60): no claim
+				return expect{class: cGrey, form: "rfc3339-lenient-range"}
 			}
 			if tt.IsZero() {
 				return expect{class: cGrey, form: "rfc3339-year1"}
@@ -752,9 +791,17 @@ func classify(k fkind, raw []byte, strictFold bool) expect {
 			if s == "" {
 				return expect{class: cOther, form: "string-empty"}
 			}
-			tag, class := localeOf(s)
+			li := localeInfo(s)
+			tag, class := li.tag, li.class
 			switch class {
 			case cDoc:
+				if li.kind == "unknown" {
+					// documented (Locale.UnmarshalJSON): a well-formed tag with an unknown subtag gives the undefined locale and no error
+					if li.partial != "" {
+						return expect{class: cDoc, form: "string-unknown-subtag-next-to-known"}
+					}
+					return expect{class: cDoc, form: "string-unknown-subtag"}
+				}
 				if tag == "" {
 					return expect{class: cDoc, form: "string-und"}
 				}
@@ -772,13 +819,16 @@ func classify(k fkind, raw []byte, strictFold bool) expect {
 	case kLocales:
 		switch x := v.(type) {
 		case string:
-			l, ok := localeList(strings.Split(x, " "))
+			l, partial, ok := localeList(strings.Split(x, " "))
 			if !ok {
 				return expect{class: cGrey, form: "string-tag-canonicalised"}
 			}
 			e := expect{class: cDoc, want: l, form: "string-spaces"}
 			if len(l) != len(strings.Split(x, " ")) {
 				e.form = "string-spaces-with-undefined"
+			}
+			if partial {
+				e.form = "string-spaces-with-unknown-subtag"
 			}
 			if len(l) == 0 {
 				e.want = nil
@@ -788,13 +838,16 @@ func classify(k fkind, raw []byte, strictFold bool) expect {
 			if !allStrings(x) {
 				return expect{class: cOther, form: "array-nonstring"}
 			}
-			l, ok := localeList(strList(x))
+			l, partial, ok := localeList(strList(x))
 			if !ok {
 				return expect{class: cGrey, form: "array-tag-canonicalised"}
 			}
 			e := expect{class: cDoc, want: l, form: "array"}
 			if len(l) != len(x) {
 				e.form = "array-with-undefined"
+			}
+			if partial {
+				e.form = "array-with-unknown-subtag"
 			}
 			if len(l) == 0 {
 				e.want = nil
@@ -822,6 +875,33 @@ func classify(k fkind, raw []byte, strictFold bool) expect {
 		return other
 	}
 	return other
+}
+
+var rfc3339Re = regexp.MustCompile(`^(\d{4})-(\d{2})-(\d{2})T(\d{2}):(\d{2}):(\d{2})(\.\d+)?(Z|[+-](\d{2}):(\d{2}))$`)
+
+// rfc3339Shape: s has the RFC 3339 date-time shape (digits and punctuation in place); inRange: every component is within its range
+// (month 1-12, day within the month, hour 0-23, minute 0-59, second 0-59, offset up to 23:59). Used for labelling only, time.Parse decides.
+func rfc3339Shape(s string) (shaped, inRange bool) {
+	m := rfc3339Re.FindStringSubmatch(s)
+	if m == nil {
+		return false, false
+	}
+	n := func(i int) int { v, _ := strconv.Atoi(m[i]); return v }
+	year, month, day := n(1), n(2), n(3)
+	if month < 1 || month > 12 || day < 1 || n(4) > 23 || n(5) > 59 || n(6) > 59 {
+		return true, false
+	}
+	dim := []int{31, 28, 31, 30, 31, 30, 31, 31, 30, 31, 30, 31}[month-1]
+	if month == 2 && year%4 == 0 && (year%100 != 0 || year%400 == 0) {
+		dim = 29
+	}
+	if day > dim {
+		return true, false
+	}
+	if m[9] != "" && (n(9) > 23 || n(10) > 59) {
+		return true, false
+	}
+	return true, true
 }
 
 // analyseObject states, member by member, what decoding the object into the named type must yield.
